@@ -1,13 +1,13 @@
 package main
 
 import (
-	"strconv"
 	"bytes"
 	"encoding/json"
 	"fmt"
 	"os"
 	"regexp"
 	"sort"
+	"strconv"
 	"strings"
 	"time"
 
@@ -267,6 +267,13 @@ func applyStart(m *ir.Module, start string) {
 		// through its error path before the printers start.
 		_ = m.String()
 		doCall(m, Call{K: 20})
+	case "locals-stale":
+		// Printed once, then edited inside function bodies only: the numbers of
+		// unnamed globals, functions and metadata are settled (a function printer
+		// reads them while a module printer confirms them), those of locals have
+		// to be assigned again, by whichever printer of the function comes first.
+		_ = m.String()
+		staleLocals(m)
 	case "stale":
 		// Printed once, then extended: the IDs left by the print are stale and
 		// the next print has to renumber (writes under the mutexes again).
@@ -278,6 +285,19 @@ func applyStart(m *ir.Module, start string) {
 // staleEdit extends an already printed module so that the numbers of unnamed
 // globals, functions and locals all shift.
 func staleEdit(m *ir.Module) {
+	staleLocals(m)
+	// An optional field assigned after construction (the cached pointer type of
+	// the global keeps the address space it had when it was computed).
+	if n := len(m.Globals); n > 0 {
+		m.Globals[n-1].AddrSpace = 3
+	}
+	g := ir.NewGlobalDef("", constant.NewInt(types.I32, 42))
+	m.Globals = append([]*ir.Global{g}, m.Globals...)
+}
+
+// staleLocals edits the function bodies of an already printed module so that
+// the numbers of their unnamed locals shift.
+func staleLocals(m *ir.Module) {
 	for fi, f := range m.Funcs {
 		if len(f.Blocks) == 0 {
 			continue
@@ -316,13 +336,6 @@ func staleEdit(m *ir.Module) {
 			}
 		}
 	}
-	// An optional field assigned after construction (the cached pointer type of
-	// the global keeps the address space it had when it was computed).
-	if n := len(m.Globals); n > 0 {
-		m.Globals[n-1].AddrSpace = 3
-	}
-	g := ir.NewGlobalDef("", constant.NewInt(types.I32, 42))
-	m.Globals = append([]*ir.Global{g}, m.Globals...)
 }
 
 type c13Outcome struct {
@@ -481,7 +494,7 @@ func c13Run(sc *C13Scenario) *c13Outcome {
 	if pan, msg := protect(func() {
 		simCall(func() {
 			applyStart(twin, sc.Start)
-			if sc.Start != "printed" {
+			if sc.Start != "printed" && sc.Start != "locals-stale" {
 				// All tasks print the same receiver; the lone sequential call sequence
 				// is computed once per distinct call list (module prints through
 				// String and WriteTo give the same text, and printing twice is
@@ -607,8 +620,8 @@ func c13CrossRef(module, start string) (string, bool) {
 		c13Ref = wrap.Table
 	}
 	key := "fresh"
-	if start == "stale" {
-		key = "stale"
+	if start == "stale" || start == "locals-stale" {
+		key = start
 	}
 	h, ok := c13Ref[module][key]
 	return h, ok
@@ -642,9 +655,14 @@ func c13MakeRef() {
 				entry["fresh"] = hex64(hash64(m.String()))
 				staleEdit(m)
 				entry["stale"] = hex64(hash64(m.String()))
+				if m2, err := src.Build(); err == nil {
+					_ = m2.String()
+					staleLocals(m2)
+					entry["locals-stale"] = hex64(hash64(m2.String()))
+				}
 			})
 		})
-		if len(entry) == 2 {
+		if len(entry) >= 2 && entry["stale"] != "" {
 			table[src.Name] = entry
 		}
 	}
@@ -682,6 +700,11 @@ func c13GenScenario(r *rng, srcs []*moduleSource) *C13Scenario {
 		}
 	case x < 8:
 		sc.Start = "printed"
+		if r.chance(1, 3) {
+			// printed once, then edited inside function bodies only: global and
+			// metadata numbering are settled, local numbering is not
+			sc.Start = "locals-stale"
+		}
 	case x < 11:
 		sc.Start = "stale"
 	default:
@@ -695,12 +718,12 @@ func c13GenScenario(r *rng, srcs []*moduleSource) *C13Scenario {
 		// simultaneous callers).
 		nt = 8 + r.intn(9)
 	}
-	if sc.Start == "printed" && !crowd {
+	if (sc.Start == "printed" || sc.Start == "locals-stale") && !crowd {
 		for i := 0; i < nt; i++ {
 			var calls []Call
 			for j := 0; j < 1+r.intn(3); j++ {
 				k := r.intn(len(callNames))
-				if r.chance(1, 2) {
+				if r.chance(1, 2) || sc.Start == "locals-stale" {
 					k = []int{0, 1, 2, 17}[r.intn(4)] // module and function prints are where the locks are
 				}
 				calls = append(calls, Call{K: k, A: r.intn(64), B: r.intn(64), C: r.intn(64)})
@@ -1037,7 +1060,7 @@ func c13Candidates(raw json.RawMessage) []interface{} {
 		if len(sc.Tasks[i]) > 1 {
 			for j := range sc.Tasks[i] {
 				c := clone()
-				if sc.Start != "printed" {
+				if sc.Start != "printed" && sc.Start != "locals-stale" {
 					// keep all tasks identical
 					for t := range c.Tasks {
 						if j < len(c.Tasks[t]) && len(c.Tasks[t]) > 1 {
